@@ -730,6 +730,24 @@ class Resolver:
             prog = getattr(self.fn, "program", None)
             if c.endswith("::from_residual") or (prog is not None and prog.is_always_err(c)):
                 return None
+            if c.endswith("Option::<std::result::Result<T, E>>::transpose") and t[2]:
+                # ok(Option<Result<T>>::transpose(x)): Some(r) -> Some(ok(r)), None -> None, Some(Err) -> no Ok payload
+                inner = t[2][0]
+                alts = []
+                for a in (inner[1] if inner[0] == "phi" else (inner,)):
+                    if a[0] == "agg" and a[1][0] == "adt" and a[1][1].endswith("option::Option"):
+                        if a[1][2] == "Some" and a[2]:
+                            r = self._ok_norm(a[2][0], depth + 1)
+                            if r is None:
+                                continue
+                            a = ("agg", a[1], (r,))
+                        if a not in alts:
+                            alts.append(a)
+                    else:
+                        return ("ok", t)
+                if not alts:
+                    return None
+                return alts[0] if len(alts) == 1 else ("phi", tuple(alts))
         return ("ok", t)
 
     def local(self, n, depth=0, seen=frozenset()):
